@@ -158,6 +158,11 @@ def traverse {σ : Type} (cb : Cb σ) (s : σ) (t : JVal) : Result × σ :=
   let m := (events t).foldl (step cb) ⟨.run, s⟩
   (m.mode.result, m.st)
 
+/-- the same user function, also recording every call made together with the code it returned
+(how a traversal is observed: the recorded list is the call log) -/
+def withLog {σ : Type} (cb : Cb σ) : Cb (σ × List (Call × Int)) :=
+  fun s c => let r := cb s.1 c; (r.1, (r.2, s.2 ++ [(c, r.1)]))
+
 /-! ### the nodes of a tree in document order (used to say what the labels mean) -/
 
 mutual
@@ -173,5 +178,21 @@ mutual
     | [] => []
     | (_, v) :: kvs => preorder v ++ preorderMembers kvs
 end
+
+/-- the arrivals (first visits) of an event list -/
+def arrivals (l : List Ev) : List Ev := l.filter (fun e => !e.second)
+
+/-- what `parent` and `slot` of the node labelled `n` with value `v` must mean, relative to the table `L`
+of all nodes in document order: the root has neither; otherwise `parent` names an earlier node that is an
+array holding `v` at index `i`, or an object holding `v` under key `k` -/
+def SlotSound (L : List JVal) (n : Nat) (v : JVal) (parent : Option Nat) : Slot → Prop
+  | .root => parent = none ∧ n = 0
+  | .idx i => ∃ (p : Nat) (xs : List JVal), parent = some p ∧ p < n ∧ L[p]? = some (.arr xs) ∧ xs[i]? = some v
+  | .key k => ∃ (p : Nat) (kvs : List (Bytes × JVal)) (j : Nat), parent = some p ∧ p < n ∧
+      L[p]? = some (.obj kvs) ∧ kvs[j]? = some (k, v)
+
+/-- an event names its node, parent and key/index correctly -/
+def Ev.Sound (L : List JVal) (e : Ev) : Prop :=
+  L[e.node]? = some e.val ∧ SlotSound L e.node e.val e.parent e.slot
 
 end JsonC.Traversal
